@@ -33,6 +33,14 @@ class SIGHASH:
 # util functions
 
 
+def read_exact(stream, n):
+    """Reads exactly n bytes from the stream, raises if the stream is too short"""
+    b = stream.read(n)
+    if len(b) != n:
+        raise TransactionError("Can't read %d bytes from the stream" % n)
+    return b
+
+
 def hash_amounts(amounts):
     h = hashlib.sha256()
     for a in amounts:
@@ -111,7 +119,7 @@ class Transaction(EmbitBase):
     def read_vout(cls, stream, idx):
         """Returns a tuple TransactionOutput, tx_hash without storing the whole tx in memory"""
         h = hashlib.sha256()
-        h.update(stream.read(4))
+        h.update(read_exact(stream, 4))
         num_vin = compact.read_from(stream)
         # if num_vin is zero it is a segwit transaction
         is_segwit = num_vin == 0
@@ -139,12 +147,12 @@ class Transaction(EmbitBase):
         if is_segwit:
             for i in range(num_vin):
                 Witness.read_from(stream)
-        h.update(stream.read(4))
+        h.update(read_exact(stream, 4))
         return res, hashlib.sha256(h.digest()).digest()
 
     @classmethod
     def read_from(cls, stream):
-        ver = int.from_bytes(stream.read(4), "little")
+        ver = int.from_bytes(read_exact(stream, 4), "little")
         num_vin = compact.read_from(stream)
         # if num_vin is zero it is a segwit transaction
         is_segwit = num_vin == 0
@@ -163,7 +171,7 @@ class Transaction(EmbitBase):
         if is_segwit:
             for inp in vin:
                 inp.witness = Witness.read_from(stream)
-        locktime = int.from_bytes(stream.read(4), "little")
+        locktime = int.from_bytes(read_exact(stream, 4), "little")
         return cls(version=ver, vin=vin, vout=vout, locktime=locktime)
 
     def hash_prevouts(self):
@@ -376,10 +384,10 @@ class TransactionInput(EmbitBase):
 
     @classmethod
     def read_from(cls, stream):
-        txid = bytes(reversed(stream.read(32)))
-        vout = int.from_bytes(stream.read(4), "little")
+        txid = bytes(reversed(read_exact(stream, 32)))
+        vout = int.from_bytes(read_exact(stream, 4), "little")
         script_sig = Script.read_from(stream)
-        sequence = int.from_bytes(stream.read(4), "little")
+        sequence = int.from_bytes(read_exact(stream, 4), "little")
         return cls(txid, vout, script_sig, sequence)
 
 
@@ -395,6 +403,6 @@ class TransactionOutput(EmbitBase):
 
     @classmethod
     def read_from(cls, stream):
-        value = int.from_bytes(stream.read(8), "little")
+        value = int.from_bytes(read_exact(stream, 8), "little")
         script_pubkey = Script.read_from(stream)
         return cls(value, script_pubkey)
